@@ -24,7 +24,7 @@ def full(Y):
          for large dimensions.
 
     """
-    Z = Y[0]
+    Z = Y[0].copy()
     for G in Y[1:]:
         Z = np.tensordot(Z, G, 1)
 
